@@ -322,7 +322,8 @@ class ConstantInt(ConstantOpcode, ABC):
 
     @classmethod
     def validate(cls, obj):
-        if not isinstance(obj, int):
+        if not isinstance(obj, int) or isinstance(obj, bool):
+            # booleans are ints, but the binary integer opcodes would unpickle them as 1 and 0
             raise ValueError(f"{cls.__name__} can only be instantiated from integers, not {obj!r}")
         elif cls.num_bytes not in cls.struct_types:
             raise TypeError(
@@ -1696,6 +1697,9 @@ class Int(ConstantOpcode):
     priority = Long4.priority + 1
 
     def encode_body(self) -> bytes:
+        if isinstance(self.arg, bool):
+            # protocol 0 spells True and False as the special INT values 01 and 00
+            return b"01\n" if self.arg else b"00\n"
         return f"{int(self.arg)}\n".encode()
 
     @classmethod
